@@ -11,6 +11,7 @@ import AcnModel.Network
 import AcnProofs.Lemmas.NetworkCurrent
 import AcnProofs.Lemmas.NetworkAlign
 import AcnProofs.Lemmas.NetworkQuery
+import AcnProofs.Lemmas.NetworkFeas
 import Mathlib.Tactic
 
 set_option linter.unusedSectionVars false
@@ -331,5 +332,136 @@ example : ((Net.init : Net ℚ).run
     .ok [[14, 11], [-2, -2]] := by decide +kernel
 
 end query
+
+/-! ## 5. Phase-angle / voltage vectors, and the link to C06 -/
+section feas
+variable {K : Type} [Field K] [LinearOrder K] [IsStrictOrderedRing K]
+
+/-- The network with its `_phase_angles` / `_voltages` vectors runs the SAME constraint
+    bookkeeping: every alignment theorem above applies to its `base`. -/
+theorem full_net_projects (ops : List (FOp K)) :
+    ((FullNet.init : FullNet K).run ops).base = (Net.init : Net K).run (ops.map FOp.toOp) ∧
+      (FullNet.init : FullNet K).trace ops = (Net.init : Net K).trace (ops.map FOp.toOp) :=
+  ⟨FullNet.run_base _ ops, FullNet.trace_base _ ops⟩
+
+/-- **C12 → C06.**  The network reached by ANY history of register / add / remove / update
+    operations in which no station id is registered twice, viewed as the object the feasibility
+    checks read, satisfies `Feas.Net.WF` — the hypothesis of C06's agreement theorems. -/
+theorem reachable_feas_wf (ops : List (FOp K)) (hf : FullNet.FreshRun (FullNet.init : FullNet K) ops)
+    (vt rt : K) : (((FullNet.init : FullNet K).run ops).toFeas vt rt).WF := by
+  have hr : Refines ((FullNet.init : FullNet K).run ops).base
+      ((Spec.init : Spec K).run (ops.map FOp.toOp)) := by
+    rw [FullNet.run_base]; exact (run_refines refines_init _).2
+  exact toFeas_wf hr (run_vecInv vecInv_init ops hf) vt rt
+
+/-- … hence, for every network a user can build that way: `infrastructure_info()` validates, and
+    `ChargingNetwork.is_feasible` equals `infrastructure_constraints_feasible` on that view, in
+    both modes, for every schedule matrix and any tolerances. -/
+theorem reachable_three_agree (ops : List (FOp K))
+    (hf : FullNet.FreshRun (FullNet.init : FullNet K) ops) (vt rt : K) (S : List (List K))
+    (linear : Bool) (vt? rt? : Option K) :
+    let net := ((FullNet.init : FullNet K).run ops).toFeas vt rt
+    net.infraInfo = .ok net.view ∧
+      net.isFeasible S linear vt? rt? =
+        .ok (net.view.feasible2 S linear (vt?.getD net.vt) (rt?.getD net.rt)) :=
+  ⟨Feas.Net.infra_ok (reachable_feas_wf ops hf vt rt),
+    Feas.Net.isFeasible_eq_view _ (reachable_feas_wf ops hf vt rt) S linear vt? rt?⟩
+
+def exFull : List (FOp ℚ) :=
+  [.register "C" 1 0 208, .register "A" 0 1 208, .register "B" (3/5) (4/5) 240,
+   .add [("B", 2), ("C", 1)] 7 none, .add [("Z", 1)] 3 (some "bad"), .remove "_const_0",
+   .register "D" 1 0 208, .add [("A", 1), ("B", -1)] 9 (some "x")]
+
+example : FullNet.FreshRun FullNet.init exFull := by
+  simp only [exFull, FullNet.FreshRun, FullNet.FreshOp, and_true, true_and]
+  refine ⟨?_, ?_, ?_, ?_⟩ <;> decide +kernel
+
+/-- Registering a registered id again (before any constraint) appends a phase angle and a
+    voltage but not a station: the vectors get out of step and the shape invariant is lost. -/
+theorem reregistration_breaks_wf (f : FullNet K) (hv : VecInv f) (hm : f.base.matrix = none)
+    (id : String) (hid : id ∈ f.base.stations) (c s v vt rt : K) :
+    ¬ ((f.step (.register id c s v)).1.toFeas vt rt).WF := by
+  intro h
+  have h1 := h.hc
+  simp only [FullNet.step, FullNet.register, hm, Option.isSome_none, Bool.false_eq_true, if_false,
+    FullNet.toFeas, Net.register, hid, if_true, List.length_append, List.length_singleton] at h1
+  have := hv.hc
+  omega
+
+example : VecInv (FullNet.init.run [FOp.register "A" (1 : ℚ) 0 208]) ∧
+    "A" ∈ (FullNet.init.run [FOp.register "A" (1 : ℚ) 0 208]).base.stations :=
+  ⟨⟨by decide +kernel, by decide +kernel, by decide +kernel⟩, by decide +kernel⟩
+
+/-- `constraint_current` with the network's own phase angles (charging_network.py:476-484) on a
+    network without re-registration: real and imaginary parts of the named rows, in network order,
+    by the requested columns; entry = Σⱼ coeff(currentᵢ, stationⱼ)·(schedule[j][τ]·cos/sin φⱼ). -/
+theorem full_query (ops : List (FOp K)) (hfr : FullNet.FreshRun (FullNet.init : FullNet K) ops)
+    (sched : List (List K)) (T : Nat) (names : Option (List String)) (times : Option (List Int))
+    (cols : List Nat) :
+    let f := (FullNet.init : FullNet K).run ops
+    let sp := (Spec.init : Spec K).run (ops.map FOp.toOp)
+    sp.frozen = true → sched.length = sp.stations.length → Net.selTimes T times = some cols →
+    f.constraintCurrent sched T names times =
+      .ok ((sp.cons.filter (selName names)).map (fun t => cols.map (fun τ =>
+              dotK (sp.stations.map (coeff t.cur))
+                ((List.range sp.stations.length).map (fun j => FullNet.phasorEntry sched f.c j τ)))),
+           (sp.cons.filter (selName names)).map (fun t => cols.map (fun τ =>
+              dotK (sp.stations.map (coeff t.cur))
+                ((List.range sp.stations.length).map (fun j => FullNet.phasorEntry sched f.s j τ))))) := by
+  intro f sp hf hs ht
+  have h : Refines f.base sp := by
+    show Refines ((FullNet.init : FullNet K).run ops).base _
+    rw [FullNet.run_base]; exact (run_refines refines_init _).2
+  have hv : VecInv f := run_vecInv vecInv_init ops hfr
+  unfold FullNet.constraintCurrent
+  simp only [ht]
+  have hw : FullNet.broadcastWidth sched.length f.c.length = some sp.stations.length := by
+    unfold FullNet.broadcastWidth
+    rw [if_pos (by rw [hv.hc, h.stations]; exact hs), hs]
+  simp only [hw]
+  have hsome := h.frozen
+  rw [hf] at hsome
+  cases hm : f.base.matrix with
+  | none => rw [hm] at hsome; cases hsome
+  | some rows =>
+    have hr : rows = sp.cons.map (fun t => Net.row sp.stations t.cur) := by
+      have := h.rows; rw [hm] at this; exact this
+    simp only
+    rw [if_neg (by rw [h.stations]; simp)]
+    rw [h.index, hr, select_rows]
+    simp [List.map_map, Net.row, Function.comp_def]
+
+/-- After an id was registered twice, EVERY correctly shaped aggregate-current query raises
+    (IndexError for a bad time index, else ValueError from numpy's broadcasting / matrix product,
+    TypeError on a one-station network without constraints): the network is unusable, it does not
+    return wrong numbers. -/
+theorem reregistered_query_fails (f : FullNet K) (hlt : f.base.stations.length < f.c.length)
+    (hpos : 0 < f.base.stations.length) (sched : List (List K))
+    (hs : sched.length = f.base.stations.length) (T : Nat) (names : Option (List String))
+    (times : Option (List Int)) : ∃ e, f.constraintCurrent sched T names times = .error e := by
+  unfold FullNet.constraintCurrent
+  cases Net.selTimes T times with
+  | none => exact ⟨_, rfl⟩
+  | some cols =>
+    simp only
+    unfold FullNet.broadcastWidth
+    rw [hs]
+    by_cases h1 : f.base.stations.length = 1
+    · rw [if_neg (by omega), if_pos h1]
+      simp only
+      cases f.base.matrix with
+      | none => exact ⟨_, rfl⟩
+      | some rows =>
+        simp only
+        rw [if_pos (by omega)]
+        exact ⟨_, rfl⟩
+    · rw [if_neg (by omega), if_neg h1, if_neg (by omega)]
+      exact ⟨_, rfl⟩
+
+example : ∃ e, (FullNet.init.run [FOp.register "A" (1 : ℚ) 0 208, .register "B" 1 0 208,
+    .register "A" 1 0 208, .add [("A", 1)] 5 none]).constraintCurrent [[1], [2]] 1 none none
+      = .error e := ⟨.valueError, by decide +kernel⟩
+
+end feas
 
 end Acn.C12
